@@ -3,9 +3,7 @@
 package main
 
 import (
-	"bytes"
 	"crypto/ecdsa"
-	"crypto/rsa"
 	"fmt"
 
 	"github.com/ossrs/go-oryx-lib/https/acme"
@@ -56,7 +54,7 @@ func runACME(c *hl.Ctx, mine func() bool) {
 				ser := signed.FullSerialize() // what jws.post sends
 				vc := cs
 				vc.Object = ser
-				if !checkSignedObject(c, vc, a, ser, payload, pub, wrong, other, true) {
+				if rt, _ := checkSignedObject(c, vc, a, ser, payload, pub, wrong, other, true); !rt {
 					return
 				}
 				p, _ := jose.ParseSigned(ser)
@@ -70,7 +68,7 @@ func runACME(c *hl.Ctx, mine func() bool) {
 					if c.Thorough() {
 						mode = 2
 					}
-					tamperAll(c, vc, "jws", "jws/tamper/"+a.family, ser, mode, jwsTry(pub))
+					tamperAll(c, vc, "jws", jwsTamperKey(a), ser, mode, jwsTry(pub))
 				}
 			})
 			if pan {
@@ -104,6 +102,4 @@ func runACME(c *hl.Ctx, mine func() bool) {
 			}
 		}
 	}
-	_ = bytes.Equal
-	_ = (*rsa.PublicKey)(nil)
 }
